@@ -1019,6 +1019,9 @@ def _inject(rng, items, label):
         c = [a for t in types if t["kind"] in ("object", "interface") for f in t["fields"] for a in f["args"]]
         c += [f for t in types if t["kind"] == "input" for f in t["input_fields"]]
         c = [a for a in c if a["type"]["k"] == "named" or (a["type"]["k"] == "nonNull" and a["type"]["t"]["k"] == "named")]
+        # a custom scalar takes every kind of literal (fix C11-1): not a defect there
+        custom = {t["name"] for t in types if t["kind"] == "scalar"}
+        c = [a for a in c if (a["type"]["n"] if a["type"]["k"] == "named" else a["type"]["t"]["n"]) not in custom]
         if not c:
             return None
         a = rng.choice(c)
